@@ -7,6 +7,22 @@ package srcgen
 // An unterminated block comment extends to the end of the text.
 func ScanComments(src []byte) []string {
 	var out []string
+	for _, c := range ScanCommentsDetailed(src) {
+		out = append(out, c.Text)
+	}
+	return out
+}
+
+// ScannedComment is a comment found by ScanCommentsDetailed.
+type ScannedComment struct {
+	Text       string
+	Offset     int
+	InTemplate bool // inside the expression of a string template `\( … )`
+}
+
+// ScanCommentsDetailed is ScanComments with the position of each comment and whether it lies inside a string template expression.
+func ScanCommentsDetailed(src []byte) []ScannedComment {
+	var out []ScannedComment
 	type frame struct{ parens int } // one per open template expression
 	var stack []frame
 	inString := false
@@ -38,7 +54,7 @@ func ScanComments(src []byte) []string {
 			for j < n && src[j] != '\n' {
 				j++
 			}
-			out = append(out, string(src[i:j]))
+			out = append(out, ScannedComment{Text: string(src[i:j]), Offset: i, InTemplate: len(stack) > 0})
 			i = j
 		case c == '/' && i+1 < n && src[i+1] == '*':
 			depth := 0
@@ -57,7 +73,7 @@ func ScanComments(src []byte) []string {
 					j++
 				}
 			}
-			out = append(out, string(src[i:j]))
+			out = append(out, ScannedComment{Text: string(src[i:j]), Offset: i, InTemplate: len(stack) > 0})
 			i = j
 		case c == '(':
 			if len(stack) > 0 {
